@@ -249,6 +249,16 @@ def race_stage(work, tier, seed):
         access_stacks = blk.split("\nGoroutine ")[0]
         if re.search(r"\.Verif[A-Z]\w*\(|verif_export\.go", access_stacks):
             continue
+        # .. also when the accessor was inlined: the innermost frame of one of the two accesses that is not the runtime's
+        # belongs to the harness (package main)
+        harness_access = False
+        for st in re.split(r"\n(?=Previous )", access_stacks):
+            fns = [ln.strip() for ln in st.splitlines()[1:] if ln.strip() and not ln.strip().startswith("/")]
+            fns = [f for f in fns if not f.startswith("runtime.")]
+            if fns and fns[0].startswith("main."):
+                harness_access = True
+        if harness_access:
+            continue
         frames = [f for f in frames if "verif" not in f.lower()]
         if frames:
             reports.append(tuple(frames[:2]))
